@@ -10,6 +10,22 @@ Generic lock-step trace runner.  A trace file is a sequence of blocks
 For every op the model is stepped, outcome and observation are compared field by
 field, and the property monitors are evaluated on the *implementation's*
 observations.  Output: one line per finding plus one summary line per trace.
+
+Re-synchronisation.  After a value disagreement (or an `impl_laxer` outcome: the real
+code accepted a call the model rejects) the model state no longer is the
+implementation's state.  Every disagreement found at that op is reported (one DISAGREE
+line per differing field); then, if the scenario has a `resync` function, the model
+state is rebuilt from the implementation's observation of that op and the comparison
+goes on: every later op is compared from the implementation's real pre-state, so a
+trace can report several disagreements (bounded: `maxPerKey` lines per field and op
+kind).  Without `resync` (or when it gives up) only the monitors keep running on the
+rest of the trace, as before.  Ops without an observation (queries, probes) do not
+change the implementation's state: with `resync` a disagreement there never stops the
+comparison.  The monitors never see the model and are unaffected.  Summary line:
+`resyncs=` rebuilt states, `inexact=` rebuilt states that still render differently from
+the observation (the implementation is in a state the model cannot represent),
+`suppressed=` DISAGREE lines beyond the bound.  Header key `forceresync=1` (self-test,
+`tools/resync_selftest.sh`): rebuild after *every* observation.
 -/
 namespace CwPlus.Driver
 open CwPlus Wire
